@@ -23,10 +23,7 @@ NOT_DECIDED = [
 def H(name, ob, fns, desc, kind="complete", bound=None, tier="quick", timeout=300):
     return dict(name=name, ob=ob, functions=[B + "::" + f for f in fns], desc=desc, kind=kind, bound=bound, tier=tier, timeout=timeout)
 
-KANI_UNITS = [dict(
-    name="bearer_token", crate="conjure-object", modpath="bearer_token::verif_c16",
-    injections=[dict(file=B, module_file="bearer_token.kani.rs")],
-    harnesses=[
+_ALL_H = [
         H("valid_char_table", "C16.K.valid_char.table", ["fn valid_char", "static VALID_CHARS"],
           "for all 256 bytes: valid_char(b) <=> b in [A-Za-z0-9-._~+/] ('=' is not in the class)"),
         H("is_valid_matches_regex_len4", "C16.K.is_valid.regex_len4", ["fn is_valid", "fn valid_char"],
@@ -40,7 +37,29 @@ KANI_UNITS = [dict(
         H("serialize_renders_identical_len3", "C16.K.render.identical", ["Serialize for BearerToken::serialize", "AsRef<str> for BearerToken::as_ref", "Borrow<str> for BearerToken::borrow"],
           "Serialize / as_ref / borrow render the identical string", kind="bounded", bound="strings of <= 3 bytes", timeout=900),
         H("literals", "C16.K.literals", ["fn is_valid"], "boundary literals of the statement: '\\n', '=', 'a=b', non-ASCII rejected; padded forms accepted", kind="bounded", bound="18 concrete literals", timeout=600),
-    ])]
+    ]
+_HERE = __import__("os").path.dirname(__import__("os").path.abspath(__file__))
+def _variant(drop):
+    def f(ws):
+        s = open(__import__("os").path.join(_HERE, "bearer_token.kani.rs")).read()
+        for tag in drop:
+            while ("//@@%s-BEGIN" % tag) in s:
+                a, b = s.index("//@@%s-BEGIN" % tag), s.index("//@@%s-END" % tag)
+                s = s[:a] + s[b + len("//@@%s-END" % tag):]
+        return s
+    return f
+_TABLE = {"valid_char_table"}
+_ISVALID = {"is_valid_matches_regex_len4", "is_valid_matches_regex_len5", "literals"}
+# three units so that a refactoring of the private helpers (valid_char / is_valid signatures) can only make the
+# units that name them undecided; the entry-path harnesses use the public API only
+KANI_UNITS = [
+    dict(name="table", crate="conjure-object", modpath="bearer_token::verif_c16", injections=[dict(file=B, module_fn=_variant(["ISVALID", "API"]))],
+         harnesses=[h for h in _ALL_H if h["name"] in _TABLE]),
+    dict(name="is_valid", crate="conjure-object", modpath="bearer_token::verif_c16", injections=[dict(file=B, module_fn=_variant(["TABLE", "API"]))],
+         harnesses=[h for h in _ALL_H if h["name"] in _ISVALID]),
+    dict(name="entry_paths", crate="conjure-object", modpath="bearer_token::verif_c16", injections=[dict(file=B, module_fn=_variant(["TABLE", "ISVALID"]))],
+         harnesses=[h for h in _ALL_H if h["name"] not in _TABLE | _ISVALID]),
+]
 
 MUTANTS = [
     dict(name="table_accepts_equals", file=B, **{"from": "       0,    0,    0,    0,    0, b'A', b'B', b'C', b'D', b'E', //  6x", "to": "       0, b'=',    0,    0,    0, b'A', b'B', b'C', b'D', b'E', //  6x"},
